@@ -449,6 +449,31 @@ def main_check(prop, tier, base_seed, budget, max_runs, workers, verbose=False):
     return exit_code
 
 
+def triage(prop, tier, base_seed, n, shrink_s=15):
+    """developer tool: group violations (all properties) by signature"""
+    sig = {}
+    cnt = Counter()
+    for i in range(n):
+        seed = f"{base_seed}/{prop}/{i}"
+        cfg, ops, _ = run_seed(prop, tier, seed)
+        w = execute(prop, cfg, ops, ())
+        for v in w.violations:
+            key = (v.props, v.sig)
+            cnt[key] += 1
+            sig.setdefault(key, (seed, cfg, ops, v))
+    for key, c in cnt.most_common():
+        seed, cfg, ops, v = sig[key]
+        print(f"\n#### {c}x {key}  first seed {seed} step {v.step}")
+        print("   detail:", v.detail[:700])
+        p0 = v.props[0]
+        try:
+            small = shrink(p0, cfg, ops, v.sig, (), time.time() + shrink_s)
+        except Exception as e:  # noqa: BLE001
+            small = ops[:v.step + 1]
+        for o in small[-14:]:
+            print("     ", o)
+
+
 def main(argv=None):
     ap = argparse.ArgumentParser()
     ap.add_argument("prop", nargs="?")
@@ -461,6 +486,7 @@ def main(argv=None):
     ap.add_argument("--workers", type=int, default=int(os.environ.get("VERIF_WORKERS", "16")))
     ap.add_argument("--hash-worker", nargs=5)
     ap.add_argument("-v", action="store_true")
+    ap.add_argument("--triage", type=int)
     a = ap.parse_args(argv)
     if a.hash_worker:
         hash_worker_main(a.hash_worker)
@@ -474,6 +500,9 @@ def main(argv=None):
         seed = int(seed) if seed is not None else DEFAULT_SEED[tier]
     except ValueError:
         seed = int(hashlib.sha1(str(seed).encode()).hexdigest()[:8], 16)
+    if a.triage:
+        triage(a.prop, tier, seed, a.triage)
+        return 0
     budget = a.budget if a.budget is not None else BUDGET[tier]
     return main_check(a.prop, tier, seed, budget, a.runs, a.workers, a.v)
 
